@@ -1,4 +1,5 @@
 """C07 - ignore_exc turns every read failure into a cache miss."""
+import copy
 import inspect
 
 from hypothesis import strategies as st
@@ -22,7 +23,7 @@ RULE = ("case = (client stack: Client / PooledClient / HashClient with 1-3 serve
         "healthy empty server gives `miss`, on a healthy server holding the keys gives `hit`; under the failure the "
         "call must not raise and must return miss - same shape, the same default objects by identity - or, when the "
         "fault turned out harmless, the genuine hit; afterwards (clock advanced past two dead_timeouts) set+get on the "
-        "same object work. Non-trivial: the fault fired (from the log) and the method is not plain get.")
+        "same read call, repeated with no other traffic in between, returns the genuine hit (the items were on the servers all along) and set+get on the same object work. Non-trivial: the fault fired (from the log) and the method is not plain get.")
 MANIFEST = {
     "category": "fault_enumeration",
     "technique": "systematic enumeration of (read method x client stack x argument shape x every fault position/kind of a dry run) with a differential oracle: the failing call's result must be identical (by identity of the default objects) to the same call's miss result, or be the genuine hit",
@@ -119,6 +120,7 @@ def check(case):
     # 2. the same call under the failure
     env, c = setup(case, True, serde_mode)
     net = env.net
+    snapshot = [{k: copy.copy(v) for k, v in srv.store.items()} for srv in env.servers]
     with virtual_time(env.clock):
         fn = build_call(c, call, D, C)
         pre = 0
@@ -150,7 +152,23 @@ def check(case):
             if not (ftype in ("fault", "faults") and _equal_hit(got, hit)):
                 raise Violation(["shape", kind, call["op"]], "returned %s, a miss returns %s (hit would be %s): %s"
                                 % (_show(got, D, C), _show(miss, D, C), _show(hit, D, C), desc))
-        # 3. still usable afterwards
+        # 3a. the very call that was answered with a miss finds the items again once the servers are back (they were on
+        #     the servers all along), with no other traffic in between: repeating it is all an application does
+        for srv in env.servers:
+            srv.down = None
+        if ftype != "serde":
+            again = None
+            for attempt in range(4):
+                env.clock.advance(130)
+                for srv, snap in zip(env.servers, snapshot):      # (a get-and-touch that did reach the server has shortened their life)
+                    srv.store.update({k: copy.copy(v) for k, v in snap.items()})
+                again = env.call(build_call(c, call, D, C))
+                if again[0] == "ok" and _equal_hit(again[1], hit):
+                    break
+            else:
+                raise Violation(["still-a-miss-afterwards", kind, call["op"]], "with every server healthy again the same call, repeated over four dead_timeouts, returns %s; the stored items give %s: %s"
+                                % (_show(again[1], D, C) if again[0] == "ok" else repr(again[1]), _show(hit, D, C), desc))
+        # 3b. still usable afterwards
         for srv in env.servers:
             srv.down = None
         ok = False
